@@ -1507,6 +1507,11 @@ class CodeGenerator(NodeVisitor):
 
         const = node.as_const(frame.eval_ctx)
 
+        if not has_safe_repr(const):
+            # The text of an arbitrary object (a bound method, a
+            # generator) is not reproducible, evaluate it at runtime.
+            raise nodes.Impossible()
+
         if frame.eval_ctx.autoescape:
             const = escape(const)
 
